@@ -16,7 +16,7 @@ from sa import AnalysisError, pat
 from sa import query as Q
 from sa.model import call_name, calls_in, src, walk_no_defs
 
-from .common import PROTO_HTTP, WEB_HTTP, WEB_PARSER, loc, need
+from .common import http_func, PROTO_HTTP, WEB_HTTP, WEB_PARSER, loc, need
 
 MIN_OBLIGATIONS = 22
 JOIN = "b''.join(self._buf)"
@@ -367,7 +367,7 @@ def _parse_ok_edge(g):
 
 
 def rule_c_d(repo, chk):
-    h = repo.func(WEB_HTTP, 'HTTP._on_read')
+    h = http_func(repo, 'HTTP._on_read')
     chk.touch(h)
     g = h.cfg()
     sock = h.params[1]
